@@ -3,12 +3,14 @@ package main
 import (
 	"fmt"
 	"runtime"
+	"runtime/metrics"
 	"strings"
 	"time"
 	"unsafe"
 	"weak"
 
 	"bytes"
+	"io"
 
 	"seehuhn.de/go/membudget"
 	"seehuhn.de/go/pdf"
@@ -178,12 +180,24 @@ type fbPoolMeter struct {
 	lastGC    int
 }
 
-func (m *fbPoolMeter) sample() {
+// fbLiveHeap: bytes of heap objects found alive by a garbage collection that is run now
+// (runtime/metrics /gc/heap/live:bytes: what the last completed GC marked; unlike HeapAlloc it does
+// not include what was allocated since, so a descheduled sampler cannot over-read).
+func fbLiveHeap() uint64 {
 	runtime.GC()
+	s := []metrics.Sample{{Name: "/gc/heap/live:bytes"}}
+	metrics.Read(s)
+	if s[0].Value.Kind() == metrics.KindUint64 {
+		return s[0].Value.Uint64()
+	}
 	var ms runtime.MemStats
 	runtime.ReadMemStats(&ms)
-	if ms.HeapAlloc > m.peakHeap {
-		m.peakHeap = ms.HeapAlloc
+	return ms.HeapAlloc
+}
+
+func (m *fbPoolMeter) sample() {
+	if h := fbLiveHeap(); h > m.peakHeap {
+		m.peakHeap = h
 	}
 }
 
@@ -249,7 +263,7 @@ func (m *fbPoolMeter) hook(ev byte, id unsafe.Pointer, n, live, peak int) {
 }
 
 // fbChildPoolCase runs one memory-measured JBIG2 case.
-func fbChildPoolCase(body []byte, useLedger bool) (word string, n int, detail string) {
+func fbChildPoolCase(kind string, body []byte, useLedger bool) (word string, n int, detail string) {
 	defer func() {
 		if p := recover(); p != nil {
 			word, detail = "panic", strings.ReplaceAll(fmt.Sprint(p), "\n", " ")
@@ -258,10 +272,7 @@ func fbChildPoolCase(body []byte, useLedger bool) (word string, n int, detail st
 	total := int64(8<<20) + min(int64(1024*len(body)), 256<<20)
 	budget := membudget.New(total)
 	m := &fbPoolMeter{entries: map[uintptr]*fbLedgerEntry{}}
-	runtime.GC()
-	var ms runtime.MemStats
-	runtime.ReadMemStats(&ms)
-	m.base = ms.HeapAlloc
+	m.base = fbLiveHeap()
 	if useLedger {
 		pdf.VerifJBIG2SetPoolHook(m.hook)
 		defer pdf.VerifJBIG2SetPoolHook(nil)
@@ -270,7 +281,6 @@ func fbChildPoolCase(body []byte, useLedger bool) (word string, n int, detail st
 	stop, done := make(chan struct{}), make(chan uint64)
 	go func() {
 		var peak uint64
-		var s runtime.MemStats
 		t := time.NewTicker(2 * time.Millisecond)
 		defer t.Stop()
 		for {
@@ -279,14 +289,15 @@ func fbChildPoolCase(body []byte, useLedger bool) (word string, n int, detail st
 				done <- peak
 				return
 			case <-t.C:
-				runtime.GC()
-				runtime.ReadMemStats(&s)
-				peak = max(peak, s.HeapAlloc)
+				peak = max(peak, fbLiveHeap())
 			}
 		}
 	}()
 	word = "data"
-	f := &pdf.FilterJBIG2{}
+	var f pdf.Filter = &pdf.FilterJBIG2{}
+	if kind == "dctmem" {
+		f = pdf.FilterDCT{}
+	}
 	rd, err := f.Decode(pdf.V2_0, bytes.NewReader(body), budget)
 	if err != nil {
 		word, detail = "other", err.Error()
@@ -299,6 +310,16 @@ func fbChildPoolCase(body []byte, useLedger bool) (word string, n int, detail st
 			k, err := rd.Read(buf)
 			n += k
 			if err != nil {
+				if err != io.EOF {
+					word, detail = "other", err.Error()
+					if pdf.IsMalformed(err) {
+						word = "malformed"
+					}
+				}
+				break
+			}
+			if n > fbChildReadBudget {
+				word = "budget"
 				break
 			}
 		}
